@@ -97,6 +97,10 @@ pub struct EvalOut {
     pub decisions_digest: u64,
     /// coverage: hashed joint states along edges and two-edge paths, observed after every call
     pub features: BTreeSet<u64>,
+    /// ground truth of every successful execution: the values it read (part -> value) ...
+    pub consumed_vals: BTreeMap<usize, BTreeMap<String, u64>>,
+    /// ... and the values it produced
+    pub produced_vals: BTreeMap<String, u64>,
     pub max_in_flight: usize,
     pub clock_start: u64,
     pub clock_end: u64,
@@ -394,6 +398,8 @@ pub fn evaluate(sc_cfg: &Config, defs: &[Def], world: &mut World, plan: &EvalPla
         blocked: BTreeSet::new(),
         misuse_done: 0,
         features: BTreeSet::new(),
+        consumed_vals: BTreeMap::new(),
+        produced_vals: BTreeMap::new(),
         consumed_at_start: BTreeMap::new(),
     };
 
@@ -1040,6 +1046,10 @@ impl<'a> DriverState<'a> {
         let r = eng.success(&job.id, rec.clone());
         match r {
             CallRes::Ok => {
+                out.consumed_vals.insert(j, info.inputs.iter().map(|(_, p, v)| (p.clone(), *v)).collect());
+                for (p, v) in vals.iter() {
+                    out.produced_vals.insert(p.clone(), *v);
+                }
                 out.ok.insert(j, rec.clone());
                 out.events.push((self.action_idx, Ev::Ok(j, rec.clone())));
                 // C16: a validated ephemeral that reported a cmp-different output must be rejected
